@@ -167,7 +167,7 @@ def run(ctx):
                 'die_if_unbearable are compared across scales and with the model bound')
     ctx.assumptions += ['see C01; the explanation path (die_if_unbearable when rejecting) is measured, not modelled: '
                         'its size-independence is tested on the scaling stream only']
-    regenerate(ctx)
+    ctx.safe_regenerate(regenerate)
     proof_err = c01.prove_core(ctx, PROP)
     failures = 0
     try:
